@@ -49,6 +49,7 @@ POOL = [
     ("raising", DOC_E, None, None, {("a", "a"): "raise", ("color",): "raise_te"}, 1, "scn"),
     ("shared-exception", DOC_E, None, None, {("a", "a"): "raise_shared"}, 1, "scn"),
     ("shared-exception-other-field", DOC_E, None, None, {("color",): "raise_shared"}, 2, "scn"),
+    ("enriching-its-own-library-error", DOC_E, None, None, {("color",): "raise_te_enriched"}, 1, "scn"),
 ]
 # requests for the engine with a custom error coercer that annotates the error it is given (the documented customisation pattern:
 # `error["extensions"]["..."] = ...`) and suspends in between: errors of different requests must not share what the coercer receives
